@@ -4,8 +4,11 @@
     0 <= nanos < 10^9 and ns d in [-(2^63-1) ms, +(2^63-1) ms] ([in_rng]); model functions are the
     line-by-line transcription of src/time_delta.rs in Model/C06.v, with trapping integer arithmetic
     ([Val]/[Panic]). *)
-From Coq Require Import ZArith List Bool.
-From V Require Import Base.Int Base.IO Model.C06 Proofs.C06.
+From Coq Require Import ZArith List Bool String.
+From V Require Import Base.Int Base.IO Gen.TimeDelta Model.C06 Spec.DurationText Proofs.C06 Proofs.C06Ops
+  Proofs.C06Display Proofs.C06Holds Proofs.HoldsLib.
+From V Require Judge.C06.
+Import ListNotations.
 Open Scope Z_scope.
 
 (* constructors: exact, or refused exactly when the argument is out of range *)
@@ -153,12 +156,177 @@ Theorem C06_to_std : forall a, valid a ->
 Proof. exact to_std_spec. Qed.
 Print Assumptions C06_to_std.
 
-(* text form: PARTIAL — proved: never traps and the digit loop terminates within its fuel; the
-   equality with the exact decimal of |ns|/10^9 is decided by the judge on implementation and
-   model outputs (correspondence), not by a theorem. *)
+(* text form: PARTIAL (kept under its name) — only: never traps and the digit loop terminates within its
+   fuel.  SUPERSEDED by C06_display_exact below, which gives the text itself for every valid duration. *)
 Theorem C06_display_total_partial : forall a, valid a -> exists s, td_display a = Val s.
 Proof. exact td_display_total. Qed.
 Print Assumptions C06_display_total_partial.
+
+(* text form, exact: for EVERY valid duration (MIN and MAX included) Display prints [duration_text] of the
+   nanosecond count — Spec/DurationText.v, written from the documentation over Z with the decimal digits
+   of Base.IO / Proofs/Decimal.v: sign, "P", then "0D" for zero, else "T", the whole seconds of |n| in
+   decimal, the fraction (absent when zero, otherwise "." and the nine digits with the trailing zeros
+   removed), "S".  No trap, no fuel exhaustion. *)
+Theorem C06_display_exact : forall a, valid a -> td_display a = Val (duration_text (ns a)).
+Proof. exact td_display_exact. Qed.
+Print Assumptions C06_display_exact.
+(* what [duration_text] is, without reference to its definition: I is the minimal decimal of |n| / 10^9
+   (digits only, no leading zero unless it is "0"), F the fraction digits (one to nine digits, the last
+   one not a zero, F scaled back to nine places is |n| mod 10^9); bytes 45 '-', 80 'P', 84 'T', 48 '0',
+   68 'D', 46 '.', 83 'S' — for every integer n *)
+Theorem C06_display_text_shape : forall n,
+  let a := Z.abs n in
+  let sign := if n <? 0 then [45] else [] in
+  exists I, forallb is_dig I = true /\ digits_val I 0 = a / 1000000000 /\
+            (I = [48] \/ exists c r, I = c :: r /\ c <> 48) /\
+  ((a = 0 /\ duration_text n = [80; 48; 68]) \/
+   (a <> 0 /\ a mod 1000000000 = 0 /\ duration_text n = sign ++ [80; 84] ++ I ++ [83]) \/
+   (a mod 1000000000 <> 0 /\ exists F, duration_text n = sign ++ [80; 84] ++ I ++ [46] ++ F ++ [83] /\
+      forallb is_dig F = true /\ (1 <= List.length F <= 9)%nat /\ (forall p, F <> p ++ [48]) /\
+      digits_val F 0 * 10 ^ (9 - Z.of_nat (List.length F)) = a mod 1000000000)).
+Proof. exact duration_text_shape. Qed.
+Print Assumptions C06_display_text_shape.
+(* the inverse direction: the text determines the value.  A reader of the form (optional "-", "P0D" or
+   "PT" digits ["." digits] "S") returns the nanosecond count of every printed text, for every integer;
+   hence printing is injective, on the model's durations too *)
+Theorem C06_display_read_back : forall n, read_duration_text (duration_text n) = Some n.
+Proof. exact read_duration_text_spec. Qed.
+Print Assumptions C06_display_read_back.
+Theorem C06_display_determines_value : forall a, valid a ->
+  exists s, td_display a = Val s /\ read_duration_text s = Some (ns a).
+Proof. exact td_display_read. Qed.
+Print Assumptions C06_display_determines_value.
+Theorem C06_display_injective : forall a b, valid a -> valid b -> td_display a = td_display b -> a = b.
+Proof. exact td_display_injective. Qed.
+Print Assumptions C06_display_injective.
+Example C06_display_examples :
+  td_display (mk_td TD_MIN_secs TD_MIN_nanos) = Val (B"-PT9223372036854775.807S") /\
+  td_display (mk_td TD_MAX_secs TD_MAX_nanos) = Val (B"PT9223372036854775.807S") /\
+  td_display (mk_td 0 0) = Val (B"P0D") /\ td_display (mk_td (-1) 999999999) = Val (B"-PT0.000000001S") /\
+  td_display (mk_td 5 0) = Val (B"PT5S") /\ read_duration_text (B"-PT0.5S") = Some (-500000000).
+Proof. exact display_examples. Qed.
+Print Assumptions C06_display_examples.
+
+(* ---- the panicking constructors (weeks .. milliseconds): expect(..) of the try_ form.
+   [exact_or_panic r x]: r returns the valid duration of exactly x nanoseconds when x is in the range,
+   and is the documented panic exactly when x is out of range (= the try_ form is None) *)
+Theorem C06_panicking_ctors : forall n, in_i64 n = true ->
+  exact_or_panic (unwrap (try_weeks n)) (n * 604800 * G) /\
+  exact_or_panic (unwrap (try_days n)) (n * 86400 * G) /\
+  exact_or_panic (unwrap (try_hours n)) (n * 3600 * G) /\
+  exact_or_panic (unwrap (try_minutes n)) (n * 60 * G) /\
+  exact_or_panic (unwrap (try_seconds n)) (n * G) /\
+  exact_or_panic (unwrap_r (try_milliseconds n)) (n * 1000000).
+Proof. exact (fun n H => conj (pweeks_spec n H) (conj (pdays_spec n H) (conj (phours_spec n H)
+  (conj (pminutes_spec n H) (conj (pseconds_spec n H) (pmillis_spec n H)))))). Qed.
+Print Assumptions C06_panicking_ctors.
+Theorem C06_exact_or_panic_def : forall r x, exact_or_panic r x <->
+  (in_rng x -> exists d, r = Val d /\ ns d = x /\ valid d) /\ (~ in_rng x -> r = Panic).
+Proof. exact exact_or_panic_iff. Qed.
+Print Assumptions C06_exact_or_panic_def.
+(* Mul<i32>, Div<i32>: the checked form's value, panic exactly when it is None (Div: only for zero) *)
+Theorem C06_op_mul : forall a k, valid a -> in_i32 k = true -> exact_or_panic (op_mul a k) (ns a * k).
+Proof. exact op_mul_spec. Qed.
+Print Assumptions C06_op_mul.
+Theorem C06_op_div : forall a k, valid a -> in_i32 k = true ->
+  (k = 0 -> td_checked_div a k = Val None /\ op_div a k = Panic) /\
+  (k <> 0 -> exists d, op_div a k = Val d /\ td_checked_div a k = Val (Some d) /\ valid d /\
+                       Z.abs (ns d * k - ns a) < 2 * Z.abs k).
+Proof. exact op_div_spec. Qed.
+Print Assumptions C06_op_div.
+(* AddAssign / SubAssign (own bodies: checked form + expect) give what + and - give *)
+Theorem C06_assign_forms : forall a b,
+  unwrap_r (td_checked_add a b) = op_add a b /\ unwrap_r (td_checked_sub a b) = op_sub a b.
+Proof. exact assign_forms. Qed.
+Print Assumptions C06_assign_forms.
+(* MIN, MAX (= min_value(), max_value()), zero(): the ends of the range and the empty duration *)
+Theorem C06_consts :
+  valid (mk_td TD_MIN_secs TD_MIN_nanos) /\ ns (mk_td TD_MIN_secs TD_MIN_nanos) = RMIN /\
+  valid (mk_td TD_MAX_secs TD_MAX_nanos) /\ ns (mk_td TD_MAX_secs TD_MAX_nanos) = RMAX /\
+  valid (mk_td 0 0) /\ ns (mk_td 0 0) = 0 /\
+  (forall d, valid d -> ns (mk_td TD_MIN_secs TD_MIN_nanos) <= ns d <= ns (mk_td TD_MAX_secs TD_MAX_nanos)).
+Proof. exact consts_spec. Qed.
+Print Assumptions C06_consts.
+Theorem C06_is_zero : forall d, valid d -> is_zero d = (ns d =? 0).
+Proof. exact is_zero_spec. Qed.
+Print Assumptions C06_is_zero.
+
+(* ---- every op of the dispatcher: which model function answers it ([sh_*]: the argument decoders of
+   Proofs/C06Holds.v; td.sumv = td.sum and td.opaddasg/opsubasg = td.opadd/opsub by C06_assign_forms) *)
+Theorem C06_dispatch : forall args,
+  run (B"td.new") args = sh_new args /\
+  run (B"td.weeks") args = sh_i64 (fun z => vo_td (try_weeks z)) args /\
+  run (B"td.days") args = sh_i64 (fun z => vo_td (try_days z)) args /\
+  run (B"td.hours") args = sh_i64 (fun z => vo_td (try_hours z)) args /\
+  run (B"td.minutes") args = sh_i64 (fun z => vo_td (try_minutes z)) args /\
+  run (B"td.seconds") args = sh_i64 (fun z => vo_td (try_seconds z)) args /\
+  run (B"td.millis") args = sh_i64 (fun z => val_of_R vo_td (try_milliseconds z)) args /\
+  run (B"td.pweeks") args = sh_i64 (fun z => val_of_R enc_td (unwrap (try_weeks z))) args /\
+  run (B"td.pdays") args = sh_i64 (fun z => val_of_R enc_td (unwrap (try_days z))) args /\
+  run (B"td.phours") args = sh_i64 (fun z => val_of_R enc_td (unwrap (try_hours z))) args /\
+  run (B"td.pminutes") args = sh_i64 (fun z => val_of_R enc_td (unwrap (try_minutes z))) args /\
+  run (B"td.pseconds") args = sh_i64 (fun z => val_of_R enc_td (unwrap (try_seconds z))) args /\
+  run (B"td.pmillis") args = sh_i64 (fun z => val_of_R enc_td (unwrap_r (try_milliseconds z))) args /\
+  run (B"td.micros") args = sh_i64 (fun z => val_of_R enc_td (microseconds z)) args /\
+  run (B"td.nanos") args = sh_i64 (fun z => val_of_R enc_td (nanoseconds z)) args /\
+  run (B"td.acc") args = sh_td1 (fun d => val_of_R (fun v => v) (td_acc d)) args /\
+  run (B"td.add") args = sh_td2 (fun a b => val_of_R vo_td (td_checked_add a b)) args /\
+  run (B"td.sub") args = sh_td2 (fun a b => val_of_R vo_td (td_checked_sub a b)) args /\
+  run (B"td.mul") args = sh_tdk (fun a k => val_of_R vo_td (td_checked_mul a k)) args /\
+  run (B"td.div") args = sh_tdk (fun a k => val_of_R vo_td (td_checked_div a k)) args /\
+  run (B"td.neg") args = sh_td1 (fun d => val_of_R enc_td (td_neg d)) args /\
+  run (B"td.abs") args = sh_td1 (fun d => val_of_R enc_td (td_abs d)) args /\
+  run (B"td.cmp") args = sh_td2 (fun a b => VInt (td_cmp a b)) args /\
+  run (B"td.fromstd") args = sh_fromstd args /\
+  run (B"td.tostd") args = sh_td1 (fun d => val_of_option (fun '(s, n) => VTup [VInt s; VInt n]) (to_std d)) args /\
+  run (B"td.disp") args = sh_td1 (fun d => val_of_R VStr (td_display d)) args /\
+  run (B"td.opadd") args = sh_td2 (fun a b => val_of_R enc_td (op_add a b)) args /\
+  run (B"td.opsub") args = sh_td2 (fun a b => val_of_R enc_td (op_sub a b)) args /\
+  run (B"td.opmul") args = sh_tdk (fun a k => val_of_R enc_td (op_mul a k)) args /\
+  run (B"td.opdiv") args = sh_tdk (fun a k => val_of_R enc_td (op_div a k)) args /\
+  run (B"td.sum") args = sh_sum args /\
+  run (B"td.opaddasg") args = sh_td2 (fun a b => val_of_R enc_td (op_add a b)) args /\
+  run (B"td.opsubasg") args = sh_td2 (fun a b => val_of_R enc_td (op_sub a b)) args /\
+  run (B"td.sumv") args = sh_sum args /\
+  run (B"td.consts") args = sh_consts args.
+Proof. exact dispatch. Qed.
+Print Assumptions C06_dispatch.
+(* the accessor tuple answered to td.acc: the eleven accessors and is_zero *)
+Theorem C06_acc_tuple : forall d, valid d ->
+  td_acc d = Val (VTup [VInt (Z.quot (ns d) (604800 * G)); VInt (Z.quot (ns d) (86400 * G));
+    VInt (Z.quot (ns d) (3600 * G)); VInt (Z.quot (ns d) (60 * G)); VInt (Z.quot (ns d) G);
+    VInt (Z.quot (ns d) 1000000);
+    val_of_option VInt (if in_i64 (Z.quot (ns d) 1000) then Some (Z.quot (ns d) 1000) else None);
+    val_of_option VInt (if in_i64 (ns d) then Some (ns d) else None);
+    VInt (Z.quot (Z.rem (ns d) G) 1000000); VInt (Z.quot (Z.rem (ns d) G) 1000); VInt (Z.rem (ns d) G);
+    val_of_bool (ns d =? 0)]).
+Proof. exact td_acc_spec. Qed.
+Print Assumptions C06_acc_tuple.
+
+(* ---- the property as the independent judge states it (Judge/C06.v: plain arithmetic on the integer
+   nanosecond count, imports nothing of the model) holds of the model on EVERY case line of all 35 ops:
+   whenever the judge has an opinion it accepts the model's output.  For the two summing ops the case
+   must decode ([run] is not BADARGS — such cases are ignored by the check on both sides): the judge
+   stops at the first overflowing prefix without examining the later elements
+   (C06_holds_sum_premise_needed). *)
+Theorem C06_holds : forall op args, run op args <> VBad ->
+  Judge.C06.judge op args (run op args) <> JSkip -> Judge.C06.judge op args (run op args) = JOk.
+Proof. exact C06_holds. Qed.
+Print Assumptions C06_holds.
+Theorem C06_holds_strict : forall op args, op_is op "td.sum" = false -> op_is op "td.sumv" = false ->
+  Judge.C06.judge op args (run op args) <> JSkip -> Judge.C06.judge op args (run op args) = JOk.
+Proof. exact C06_holds_strict. Qed.
+Print Assumptions C06_holds_strict.
+Theorem C06_holds_sum_premise_needed :
+  let big := VTup [VInt 9223372036854775; VInt 0] in
+  run (B"td.sum") [VTup [big; big; VNone]] = VBad /\
+  Judge.C06.judge (B"td.sum") [VTup [big; big; VNone]] VBad <> JSkip.
+Proof. exact sum_lazy_judge_example. Qed.
+Print Assumptions C06_holds_sum_premise_needed.
+(* the judge's expected text is the specification's text *)
+Theorem C06_judge_text : forall n, Judge.C06.exp_display n = duration_text n.
+Proof. exact exp_display_text. Qed.
+Print Assumptions C06_judge_text.
 
 (* non-vacuity: the asymmetric extreme values satisfy [valid] *)
 Example C06_valid_inhabited :
